@@ -58,7 +58,12 @@ def run_traj(case):
             gcall(lambda: t.positions)
     from gemdat.volume import trajectory_to_volume
 
+    if case.get('repeat') and res * case['repeat'] <= float(np.linalg.norm(M, axis=1).min()):
+        gcall(t.to_volume, resolution=res * case['repeat'])  # an earlier volume of the same trajectory at another resolution
     vol = gcall(trajectory_to_volume, t, resolution=res) if case.get('via') == 'function' else gcall(t.to_volume, resolution=res)
+    after = np.array(gcall(lambda: t.positions))
+    if np.abs(((after - coords + 0.5) % 1.0) - 0.5).max() > 1e-9:
+        raise Violation('positions-unchanged-by-to-volume', 'to_volume modified the positions of the trajectory')
     data = np.asarray(vol.data)
     if data.ndim != 3:
         raise Violation('grid-shape', f'{data.shape}')
@@ -162,7 +167,7 @@ def traj_cases(draw, tier):
     coords = [[[min(max(draw(coord(ax)), 0.0), 1 - 2**-53) for ax in range(3)] for _ in range(N)] for _ in range(T)]
     return {'lattice': lat, 'coords': coords, 'resolution': float(res),
             'prelude': draw(st.lists(st.sampled_from(['displacements', 'msd', 'positions']), max_size=2)),
-            'via': draw(st.sampled_from(['method', 'function']))}
+            'via': draw(st.sampled_from(['method', 'function'])), 'repeat': draw(st.sampled_from([None, None, 1.0, 1.7]))}
 
 
 # ----------------------------------------------------------------------------- voxel round trip (complete enumeration)
